@@ -1035,6 +1035,7 @@ func (u *Unit) dispatchClosure(st *State, fr *Frame, instr ssa.Instruction, fv V
 func (u *Unit) callFuncValue(st *State, fr *Frame, instr ssa.Instruction, fv Val, args []Val, sig *types.Signature, resv ssa.Value, pos token.Pos) bool {
 	// type-level contract keyed by signature
 	key := sigKey(sig)
+	u.callSiteClauses(st, fr, key, append([]Val{fv}, args...), pos)
 	if c, ok := u.eng.cs.Funcs[key]; ok {
 		c.Used = true
 		if c.Trusted {
@@ -1073,6 +1074,7 @@ func (u *Unit) callInvoke(st *State, fr *Frame, instr ssa.Instruction, cc *ssa.C
 	}
 	pkg, name := ifaceMethodKey(cc.Value.Type(), cc.Method)
 	sig := cc.Method.Type().(*types.Signature)
+	u.callSiteClauses(st, fr, name, append([]Val{recv}, args...), pos)
 	if c, ok := u.eng.cs.Funcs[pkg+"::"+name]; ok {
 		c.Used = true
 		if c.Trusted {
